@@ -24,8 +24,13 @@ import (
 //	keyset-static  op.NewJWTProfileVerifierKeySet(keySet, ...) - the application's oidc.KeySet is a snapshot of the registration
 //	provider       (*op.Provider).JWTProfileVerifier(ctx) with the issuer in ctx
 //
-// crossed with the options: none, SubjectCheck(custom), SubjectCheck(nil).
-// (A struct literal / zero value of op.JWTProfileVerifier is not a way the library offers; not generated.)
+//	literal        &op.JWTProfileVerifier{Verifier: oidc.Verifier{Issuer, MaxAgeIAT, Offset}, Storage: storage[, CheckSubject: f]} -
+//	               the struct and these fields are exported, so an application (e.g. an op.Server implementer) can assemble
+//	               the verifier itself; without the CheckSubject field no subject check is configured at all
+//
+// crossed with the options: none, SubjectCheck(custom), SubjectCheck(op.SubjectIsIssuer) [the library's own default handed
+// over explicitly: not a custom check], SubjectCheck(nil) / a literal without CheckSubject [no custom check configured: the
+// default clause "subject equals issuer" stays in force; only soundness is judged, see modelAssertion].
 //
 // An oidc.KeySet only sees the JWS. The application key sets here are diligent in the sense of the statement ("a key the
 // storage holds for the client named as issuer"): they read the issuer from the (unverified) payload and answer with the key
@@ -33,14 +38,14 @@ import (
 // ignores the issuer could not be blamed on the library.
 
 var (
-	directCtors   = []string{"", "", "storage", "keyset-store", "keyset-static", "keyset-store", "keyset-static", "provider"}
-	endpointCtors = []string{"", "", "", "", "storage", "keyset-store", "keyset-static"}
-	subjectChecks = []string{"default", "default", "default", "default", "any", "any", "deny-blocked", "deny-blocked", "nil"}
+	directCtors   = []string{"", "", "storage", "keyset-store", "keyset-static", "keyset-store", "keyset-static", "provider", "literal", "literal"}
+	endpointCtors = []string{"", "", "", "", "storage", "keyset-store", "keyset-static", "literal"}
+	subjectChecks = []string{"default", "default", "default", "default", "any", "any", "deny-blocked", "deny-blocked", "nil", "nil", "explicit"}
 )
 
 func knownCtor(s string) bool {
 	switch s {
-	case "", "storage", "keyset-store", "keyset-static", "provider":
+	case "", "storage", "keyset-store", "keyset-static", "provider", "literal":
 		return true
 	}
 	return false
@@ -56,7 +61,7 @@ func genVerifierCfg(t *rapid.T, issuer string, endpoint bool) VerifierCfg {
 			return cfg
 		}
 	} else {
-		cfg.Issuer = rapid.SampledFrom([]string{"https://op.example.com", "https://op.example.com/oidc", "https://id.example.org/"}).Draw(t, "vissuer")
+		cfg.Issuer = rapid.SampledFrom([]string{"https://op.example.com", "https://op.example.com/oidc", "https://id.example.org/", "https://id.example.org", "https://op.example.com/oidc/"}).Draw(t, "vissuer")
 		cfg.Ctor = rapid.SampledFrom(directCtors).Draw(t, "ctor")
 		if cfg.Ctor == "provider" {
 			return cfg
@@ -73,25 +78,39 @@ func effectiveCfg(cfg VerifierCfg) VerifierCfg {
 	if cfg.Ctor == "provider" {
 		cfg.MaxAgeS, cfg.OffsetS, cfg.SubjectCheck = 3600, 1, "default"
 	}
+	if cfg.Ctor == "literal" && (cfg.SubjectCheck == "default" || cfg.SubjectCheck == "") {
+		// a literal without the CheckSubject field: nothing fills in the default, the func is nil
+		cfg.SubjectCheck = "nil"
+	}
 	return cfg
 }
 
 // ctorUsesStorage: the key lookup of this verifier goes to Storage.GetKeyByIDAndClientID (journal, faults).
 func ctorUsesStorage(ctor string) bool { return ctor != "keyset-static" }
 
-func subjectOptions(cfg VerifierCfg) []op.JWTProfileVerifierOption {
+// subjectFunc is the func an application hands over as subject check (ok=false: it hands over nothing).
+func subjectFunc(cfg VerifierCfg) (f func(*oidc.JWTTokenRequest) error, ok bool) {
 	switch cfg.SubjectCheck {
 	case "any":
-		return []op.JWTProfileVerifierOption{op.SubjectCheck(func(*oidc.JWTTokenRequest) error { return nil })}
+		return func(*oidc.JWTTokenRequest) error { return nil }, true
 	case "deny-blocked":
-		return []op.JWTProfileVerifierOption{op.SubjectCheck(func(r *oidc.JWTTokenRequest) error {
+		return func(r *oidc.JWTTokenRequest) error {
 			if r.Subject == "blocked" {
 				return fmt.Errorf("subject is blocked")
 			}
 			return nil
-		})}
+		}, true
+	case "explicit":
+		return op.SubjectIsIssuer, true
 	case "nil":
-		return []op.JWTProfileVerifierOption{op.SubjectCheck(nil)}
+		return nil, true
+	}
+	return nil, false
+}
+
+func subjectOptions(cfg VerifierCfg) []op.JWTProfileVerifierOption {
+	if f, ok := subjectFunc(cfg); ok {
+		return []op.JWTProfileVerifierOption{op.SubjectCheck(f)}
 	}
 	return nil
 }
@@ -108,6 +127,12 @@ func newVerifier(ctx context.Context, c Case, st *vkit.Store, sut *vkit.SUT, cfg
 		if sut != nil && sut.Provider != nil {
 			return sut.Provider.JWTProfileVerifier(op.ContextWithIssuer(ctx, issuer))
 		}
+	case "literal":
+		v := &op.JWTProfileVerifier{Verifier: oidc.Verifier{Issuer: issuer, MaxAgeIAT: maxAge, Offset: offset}, Storage: st}
+		if f, ok := subjectFunc(cfg); ok {
+			v.CheckSubject = f
+		}
+		return v
 	}
 	return op.NewJWTProfileVerifier(st, issuer, maxAge, offset, subjectOptions(cfg)...)
 }
